@@ -69,7 +69,7 @@ let cmd_bv2 t =
       if genres <> 1 then begin
         Buffer.add_string buf (Printf.sprintf "p%d=%s " k (if genres = 2 then "panic" else "abort")); None
       end else
-      match bl_party_step false p pa last with
+      match bl_party_step p pa last with
       | BOk s ->
         if last then Buffer.add_string buf (Printf.sprintf "p%d=ok:last:%s " k (hexo s.bso_lastvbf))
         else Buffer.add_string buf (Printf.sprintf "p%d=ok:%s " k (hexo s.bso_scalar));
@@ -105,7 +105,7 @@ let cmd_bv0 t =
       bi0_isst = z_of_int (if i.s_iss = 1 then i.s_isst else 0) }) ins opens in
   let mouts = Stdlib.List.map (fun o ->
     { bo0_asset = n_of_int o.q_asset; bo0_value = z_of_int o.q_value; bo0_noscript = o.q_fee }) outs in
-  match b0_blind false mins mouts sel keys sok rng with
+  match b0_blind mins mouts sel keys sok rng with
   | BErr -> print_endline "res=err"
   | BPanic -> print_endline "res=panic"
   | BOk r ->
